@@ -203,7 +203,7 @@ func VerifC02Query() {
 		for j := 0; j < i; j++ {
 			nd.Assume(!(ps[i] == ps[j] && ss[i] == ss[j]))
 		}
-		nd.Assume(ps[i] != "." && ss[i] != "." ) // C13 region excluded (cap 1/2: only the lone dot matters with 1-byte hash)
+		nd.Assume(ps[i] != "." && ss[i] != ".") // C13 region excluded (cap 1/2: only the lone dot matters with 1-byte hash)
 		_, err := c.PutItem(ctx, &dynamodb.PutItemInput{TableName: aws.String("t"), Item: map[string]types.AttributeValue{"p": vS(ps[i]), "s": vS(ss[i])}})
 		nd.Assert(err == nil, "put")
 	}
